@@ -149,7 +149,10 @@ def report(prop, tier, seed, mod, results, t0):
             if stt == 'sat':
                 rp = rec.get('replay') or {}
                 if not rp.get('reproduced'):
-                    if rec['required']:
+                    if rec['required'] and rp.get('kind') in ('finite', 'nz') and rp.get('why') is None:
+                        inconclusive.append('%s: %s: zero denominator in exact arithmetic, not hit exactly by the float64 replay'
+                                            % (res['name'], rec['oid']))
+                    elif rec['required']:
                         harness.append('%s: counterexample for %s did not reproduce on the real code (%s)'
                                        % (res['name'], rec['oid'], rp.get('why', rp)))
                     continue
